@@ -24,6 +24,15 @@ class PropertyDescriptorRelation(PredicateClassRelation):
     descriptor attached to the source instance.
     """
 
+    def __post_init__(self):
+        super().__post_init__()
+        # A subclass inherits the descriptor-managed field and the class diagram wraps it once more for the subclass. The
+        # relations of a subclass instance are relations over the one field the descriptor manages, whichever of its
+        # wrappers the relation was built from.
+        descriptor = self.wrapped_field.property_descriptor
+        if descriptor is not None:
+            self.wrapped_field = descriptor.wrapped_field
+
     @cached_property
     def transitive(self) -> bool:
         """
